@@ -22,6 +22,25 @@ func main() {
 		return
 	}
 	if len(os.Args) > 3 && os.Args[1] == "check" {
+		if len(os.Args) > 5 && os.Args[4] == "--replay" {
+			// a replay file names the seeded run that produced the violation; every workload is a
+			// function of (VERIF_SEED, tier), so re-running that run re-creates the same histories
+			bz, err := os.ReadFile(os.Args[5])
+			var v struct {
+				Property  string `json:"property"`
+				Signature string `json:"signature"`
+				What      string `json:"what"`
+				RunSeed   int64  `json:"run_seed"`
+				RunTier   string `json:"run_tier"`
+			}
+			if err != nil || json.Unmarshal(bz, &v) != nil || v.RunTier == "" {
+				fmt.Println("cannot read replay file", os.Args[5])
+				os.Exit(2)
+			}
+			fmt.Printf("replaying %s: seed %d tier %s, recorded signature %s\n  %s\n", v.Property, v.RunSeed, v.RunTier, v.Signature, v.What)
+			os.Setenv("VERIF_SEED", fmt.Sprint(v.RunSeed))
+			os.Args[3] = v.RunTier
+		}
 		code := runCheck(os.Args[2], os.Args[3])
 		drive.Cleanup()
 		os.Exit(code)
